@@ -13,7 +13,8 @@ Definition forwarding_statement : Prop :=
   uncovered cxx_table doc_table = [] /\ uncovered doc_table cxx_table = [].
 
 (* refuted on the tree as it is: the SBitEntry constructor stores GD_BIT_ENTRY,
-   BitEntry::SetNumBits(const char* ) overwrites the parsed scalar *)
+   BitEntry::SetNumBits(const char* ) overwrites the parsed scalar, Entry::Rename
+   renames the object exactly when the library call fails *)
 Theorem forwarding_refuted :
   uncovered cxx_table doc_table = known_deviations /\ known_deviations <> [].
 Proof. split; [vm_compute; reflexivity|discriminate]. Qed.
